@@ -32,6 +32,14 @@ def cases(tier, seed, phase):
                     'backoff': qh.gen_backoff(rng, 5), 'sender': rng.random() < 0.8, 'factory': True,
                     'pools': rng.choice([[None, None]] * 7 + [[2, 2], [1, 2], [1, 1]])}
         yield mk
+    for j in range(40 if tier == 'quick' else 800):
+        def mk(j=j):
+            rng = rng_for(seed, 'c01s', j)
+            nd = rng.choice([2, 2, 3])
+            doms = ['d%d.example' % i for i in range(nd)]
+            return {'kind': 'splitorder', 'domains': doms + ([doms[0]] if rng.random() < 0.3 else []),
+                    'delays': [rng.choice([0, 0.004, 0.008, 0.012]) for _ in range(nd)], 'defer': sorted(rng.sample(doms, rng.randint(0, nd - 1)))}
+        yield mk
     for j in range(60 if tier == 'quick' else 1200):
         def mk(j=j):
             rng = rng_for(seed, 'c01r', j)
@@ -41,6 +49,72 @@ def cases(tier, seed, phase):
             return {'kind': 'restart', 'backend': be, 'n': n, 'fail_meta_at': fails, 'stray_tmp': rng.random() < 0.5,
                     'garbage_meta': be == 'disk' and rng.random() < 0.3, 'seed': j}
         yield mk
+
+
+def run_splitorder(case, model):
+    """One enqueue that the policies split into several envelopes, on a storage whose writes yield and finish in another order than
+    they were started; the parts get different relay outcomes. Every recipient must be delivered exactly once and nothing may stay."""
+    import gevent
+    from slimta.queue import Queue
+    from slimta.queue.dict import DictStorage
+    from slimta.policy.split import RecipientDomainSplit
+    from slimta.relay import Relay, TransientRelayError
+    from slimta.envelope import Envelope
+    from slimta.smtp.reply import Reply
+    try:
+        gevent.get_hub().exception_stream = None
+    except Exception:
+        pass
+    delays = list(case['delays'])
+
+    class Store(DictStorage):
+        def write(self, envelope, timestamp):
+            d = delays.pop(0) if delays else 0
+            gevent.sleep(d)
+            return DictStorage.write(self, envelope, timestamp)
+    seen = []          # (recipients, outcome)
+    tries = {}
+
+    class R(Relay):
+        def attempt(self, envelope, attempts):
+            key = tuple(envelope.recipients)
+            n = tries.get(key, 0)
+            tries[key] = n + 1
+            dom = envelope.recipients[0].split('@')[1]
+            if dom in case['defer'] and n == 0:
+                seen.append((key, 'temp'))
+                raise TransientRelayError('later', Reply('450', '4.0.0 later'))
+            seen.append((key, 'ok'))
+            return None
+    store = Store()
+    q = Queue(store, R(), backoff=lambda env, attempts: 0)
+    q.add_policy(RecipientDomainSplit())
+    q.start()
+    rcpts = ['u%d@%s' % (i, d) for i, d in enumerate(case['domains'])]
+    env = Envelope('sender@example.com', rcpts)
+    env.parse(b'Subject: split\r\n\r\nbody\r\n')
+    hits = []
+    try:
+        res = q.enqueue(env)
+        accepted = [r for e, i in res if not isinstance(i, BaseException) for r in e.recipients]
+        for _ in range(300):
+            gevent.sleep(0.005)
+            if not store.env_db and all(sum(1 for k, o in seen if o == 'ok' and r in k) >= 1 for r in accepted):
+                break
+        gevent.sleep(0.02)
+        for r in accepted:
+            n_ok = sum(1 for k, o in seen if o == 'ok' and r in k)
+            if n_ok != 1:
+                hits.append(hit('c01.split-message-recipient-not-delivered-once', 'a recipient of a message split into several envelopes was delivered %d times '
+                                '(and the queue is %s)' % (n_ok, 'empty' if not store.env_db else 'not empty'),
+                                observed={'recipient': r, 'attempts': seen[:8]}, expected=1))
+                break
+        if not hits and store.env_db:
+            hits.append(hit('c01.split-message-left-in-storage', 'everything was delivered but an envelope is still stored', observed=len(store.env_db)))
+    finally:
+        q.kill()
+    key = ('splitorder', tuple(case['domains']), tuple(case['delays']), tuple(case['defer']))
+    return CaseResult(None, hits, key, ['splitorder'])
 
 
 def run_restart(case, model):
@@ -127,6 +201,8 @@ def run_restart(case, model):
 
 
 def run_case(case, model):
+    if case.get('kind') == 'splitorder':
+        return run_splitorder(case, model)
     if case.get('kind') == 'restart':
         return run_restart(case, model)
     return qh.run_case(case, model, {'C01'})
